@@ -93,6 +93,21 @@ def bounded_cases(seed, thorough=False):
             ids_c['from_isotherm'] = pygaps.PointIsotherm.from_isotherm(c0, isotherm_data=c0.data_raw.copy(), pressure_key=c0.pressure_key, loading_key=c0.loading_key).iso_id
         okc = len(set(ids_c.values())) == 1
         yield {'name': f"construction_route|celsius_labelled_{kind_}_isotherm", 'ok': okc, 'detail': '' if okc else str(ids_c)}
+    # a model isotherm whose parameters / ranges / rmse are given as integer literals or as float literals; a differing one
+    import pygaps.modelling as pgm
+
+    def mkm(K, n_m, pr, lr, rmse):
+        mdl = pgm.get_isotherm_model('Langmuir', parameters={'K': K, 'n_m': n_m}, pressure_range=pr, loading_range=lr, rmse=rmse)
+        return pygaps.ModelIsotherm(model=mdl, **meta)
+    mi, mf = mkm(2, 5, (0, 1), (0, 5), 0), mkm(2.0, 5.0, (0.0, 1.0), (0.0, 5.0), 0.0)
+    oki = mi.iso_id == mf.iso_id and mi == mf
+    yield {'name': 'construction_route|model_parameters_integer_vs_float_literals', 'ok': oki, 'detail': '' if oki else f"{mi.iso_id} != {mf.iso_id}"}
+    diffs = {'parameter': mkm(2.0, 5.5, (0.0, 1.0), (0.0, 5.0), 0.0), 'range': mkm(2.0, 5.0, (0.0, 2.0), (0.0, 5.0), 0.0), 'rmse': mkm(2.0, 5.0, (0.0, 1.0), (0.0, 5.0), 0.25),
+             'parameter_by_one': mkm(3, 5, (0, 1), (0, 5), 0)}
+    same = [k for k, v in diffs.items() if v.iso_id == mf.iso_id]
+    yield {'name': 'construction_route|model_differing_in_one_number_has_another_identifier', 'ok': not same, 'detail': ', '.join(same)}
+    okp = type(mi.model.params['K']) is int and mi.model.pressure_range == (0, 1)
+    yield {'name': 'construction_route|model_unchanged_by_identifier_query', 'ok': okp, 'detail': '' if okp else f"{mi.model.params} {mi.model.pressure_range}"}
     ints = pygaps.PointIsotherm(pressure=[1, 2, 3], loading=[1, 2, 3], **meta).iso_id
     flts = pygaps.PointIsotherm(pressure=[1., 2., 3.], loading=[1., 2., 3.], **meta).iso_id
     yield {'name': 'construction_route|integer_vs_float_literals', 'ok': ints == flts, 'detail': '' if ints == flts else f"{ints} != {flts}"}
